@@ -30,6 +30,7 @@ type E1Op struct {
 	Carrier string `json:"carrier,omitempty"` // write: message carrier
 	Poison  bool   `json:"poison,omitempty"`  // overwrite the caller's buffer right after the call returns
 	N       int    `json:"n,omitempty"`
+	Text    string `json:"text,omitempty"` // feed: the bytes to deliver (instead of N filler bytes)
 }
 
 type E1Task struct {
@@ -61,6 +62,7 @@ type E1Case struct {
 	Probe    bool         `json:"probe,omitempty"`    // C18: force a blocked writer on at the terminal state
 	C05      *C05Spec     `json:"c05,omitempty"`      // lifecycle probe configuration
 	Excluded int          `json:"excluded,omitempty"` // generator: items replaced because they belong to a listed finding
+	HTTP     *C06HTTP     `json:"http,omitempty"`     // C06: the HTTP codec's "Connection: close" path
 }
 
 type e1Call struct {
@@ -137,6 +139,7 @@ type e1Run struct {
 	holder             netty.ChannelHolder
 	idBase             int
 	enqOrder           []int // task ids in the order of their low-level writes reaching the channel
+	cleanup            []context.CancelFunc
 }
 
 // afterClosed in E1Task.After gates a task until the Close call that took effect has returned.
@@ -365,6 +368,10 @@ func (r *e1Run) runTask(ti int, spec E1Task, td *e1TaskData) {
 			}
 		case op.Op == "feed":
 			r.s.Yield("call.begin", nil)
+			if op.Text != "" {
+				r.tr.Feed([]byte(op.Text))
+				break
+			}
 			n := imax(1, op.N)
 			b := make([]byte, n)
 			for i := range b {
@@ -443,6 +450,11 @@ func (r *e1Run) doWrite(ti, oi int, op E1Op, td *e1TaskData, backing []byte) {
 	case "live":
 		c, cancel := context.WithCancel(context.Background())
 		r.liveCtx = append(r.liveCtx, cancel)
+		ctx = c
+	case "deadline":
+		// a context with a (far) deadline that never expires during the case
+		c, cancel := context.WithDeadline(context.Background(), time.Now().Add(time.Hour))
+		r.cleanup = append(r.cleanup, cancel)
 		ctx = c
 	}
 	td.ctx, td.call = ctx, call
@@ -744,6 +756,9 @@ func (r *e1Run) sweep(closeChannel bool) {
 		r.pcancel()
 		if err := r.s.Drain(); err != nil && r.incon == "" {
 			r.incon = "sweep cancel: " + err.Error()
+		}
+		for _, c := range r.cleanup {
+			c()
 		}
 	}
 }
